@@ -25,20 +25,20 @@ CLAIMED = {
 "C12": dict(
   engine="scripted-rng-simulator",
   technique="deterministic simulation: Polar's real simulator and samplers run under a scripted RNG seam (random.*, scipy rvs, numpy.random); seeded search over resolution paths (uniform / coverage / adversarial / boundary-seeking quantiles); lock-step refinement against a reference interpreter, programs alone and in sequences within one interpreter",
-  level=dict(category="exploration", design_ref="DESIGN.md §4.1-4.2, Corrections 1-3, 14-15",
+  level=dict(category="exploration", design_ref="DESIGN.md §4.1-4.2, Corrections 1-3, 14-15, 22, 28, 30",
     text="Seeded search over generated programs (all constructs, all ten families, state-dependent parameters and probabilities, nested if/elif/else, guards that exit) x scripted resolution paths. Every random request of the real Simulator, Assignment.evaluate, Condition.evaluate and the ten samplers is resolved at a scheduler-chosen quantile of its own law; the reference interpreter resolves its own law at the same quantile (or the upper quantile when the implementation uses the draw antithetically), and all iteration-boundary states (including the stuttering states after guard exit), goal columns and reported means (Simulator API and SimulationAction end to end) must agree; 20 % of the cases simulate 2-4 programs (often a program and a sibling with the same names but other values) one after the other in one interpreter. Samplers are additionally compared as quantile functions on a grid and against get_support / is_discrete / get_moment. Sampling, not enumeration: a clean batch is evidence, not proof."),
   note="Trusted: sim/refinterp.py (reference semantics, ~300 lines), sim/laws.py (scipy.stats used as a math library for cdf/ppf/isf/moment). Branch decisions closer than 1e-11 relative are discarded as inconclusive; runs in which randomness is drawn past the seam are inconclusive. Assumes random requests are issued in statement execution order, one per executed probabilistic statement, and that finite choices are requested as finite laws."),
 "C05": dict(
   engine="scripted-rng-simulator",
   technique="deterministic simulation: executions of the normalised program by Polar's own evaluator under a scripted RNG seam, seeded adversarial/coverage resolution schedules far past guard exit; state invariant value-in-type monitored after every assignment; independent exact evaluator confirms",
-  level=dict(category="exploration", design_ref="DESIGN.md §4.3, Corrections 22, 25",
-    text="Seeded search over generated programs (biased to guards over flags, multiply-assigned variables, _old copies, saturating counters, value sets outgrowing the typer's caps) x type_fp_iterations swarm x resolution schedules. The real parser, normaliser and FiniteFixedPointTyper produce the IR and the types; the IR is executed for 3-12 iterations by Assignment.evaluate / Condition.evaluate under the seam and `value in inferred type` is checked after every single assignment, including all iterations after the (collapsed) loop guard is false; for variables without initial assignment every read before the first assignment is checked as well. A violation is reported only when an independent exact-rational evaluator of the same IR reaches the same value. Known finding F13 (a variable without initial assignment keeps its symbolic initial value while the guard is false) is matched by signature and printed as KNOWN-FINDING; the consequence clause is checked by two further oracles (powers and comparisons rewritten through the value set agree with the originals on every value of the set). Sampling, not enumeration."),
+  level=dict(category="exploration", design_ref="DESIGN.md §4.3, Corrections 22, 25, 27",
+    text="Seeded search over generated programs (biased to guards over flags, multiply-assigned variables, _old copies, saturating counters, value sets outgrowing the typer's caps) x type_fp_iterations swarm x resolution schedules. The real parser, normaliser and FiniteFixedPointTyper produce the IR and the types; the IR is executed for 3-12 iterations by Assignment.evaluate / Condition.evaluate under the seam and `value in inferred type` is checked after every single assignment, including all iterations after the (collapsed) loop guard is false; for variables without initial assignment every read before the first assignment is checked as well. Independently, the reference interpreter runs the SOURCE program on paths of its own and the values of the original variables at every iteration boundary must lie in the inferred types (catches normalisation passes that change the program before it is typed). A violation is reported only when an independent exact-rational evaluator of the same IR reaches the same value. Known finding F13 (a variable without initial assignment keeps its symbolic initial value while the guard is false) is matched by signature and printed as KNOWN-FINDING; the consequence clause is checked by two further oracles (powers and comparisons rewritten through the value set agree with the originals on every value of the set). Sampling, not enumeration."),
   note="Trusted: sim/c05.py ExactIR (reads IR object fields, exact rationals), sim/refinterp.py for the source-level guard, symengine substitution as arithmetic library. User-declared types are taken as given. The IR is given the sequential guarded-assignment semantics its printed form denotes."),
 "C20": dict(
   engine="session-simulator",
   technique="deterministic simulation: seeded histories of interleaved analysis sessions (library steps, Action objects, the real polar.main) in one interpreter with injected perturbations of process-global state and a per-world PYTHONHASHSEED; history checked op by op against the same analysis alone in a pristine interpreter",
-  level=dict(category="exploration", design_ref="DESIGN.md §3.1-3.3, Corrections 17-18, 22-23",
-    text="Seeded search over histories: 2-7 sessions over the repo's own benchmark corpus and generated programs (incl. variables named like generated-name prefixes), steps interleaved by a seeded scheduler, perturbations at step boundaries (forward jumps of the unique-name counter, cache flushes / tiny cache sizes, gc, RNG churn, settings left behind by other users, natural errors (refusals of every pipeline stage), abandoned and repeated analyses, permuted goals, sibling programs, geometric loops whose invariant ideal needs a non-trivial exponent lattice), each world under its own hash seed. Oracle: every op's canonical result (closed-form values at n=0..7,12 at two generic parameter points, is_exact, inferred types as value sets, invariant ideals, refusal types) equals that of the same analysis run alone in a freshly forked pristine interpreter under PYTHONHASHSEED=0. Sampling, not enumeration; a defect identical in every history is invisible by construction."),
+  level=dict(category="exploration", design_ref="DESIGN.md §3.1-3.3, Corrections 17-18, 22-23, 29",
+    text="Seeded search over histories: 2-7 sessions over the repo's own benchmark corpus and generated programs (incl. variables named like generated-name prefixes), steps interleaved by a seeded scheduler, perturbations at step boundaries (forward jumps of the unique-name counter, cache flushes / tiny cache sizes, gc, RNG churn, settings left behind by other users, natural errors (refusals of every pipeline stage), abandoned and repeated analyses, permuted goals, sibling programs, geometric loops whose invariant ideal needs a non-trivial exponent lattice), each world under its own hash seed and the interpreter's default knobs; a step that changes an interpreter-global knob (recursion limit, integer-text limit, working directory) is followed by canary analyses whose outcome depends on it. Oracle: every op's canonical result (closed-form values at n=0..7,12 at two generic parameter points, is_exact, inferred types as value sets, invariant ideals, refusal types) equals that of the same analysis run alone in a freshly forked pristine interpreter under PYTHONHASHSEED=0. Sampling, not enumeration; a defect identical in every history is invisible by construction."),
   note="Trusted: sim/canon.py (value comparison), the pristine-template fork (parent never analyses anything), Polar itself as its own reference. A session's option vector is re-applied before each of its steps. Step wall-clock timeouts are inconclusive."),
 "C17": dict(
   engine="session-simulator",
@@ -80,7 +80,7 @@ m = {
     "kind_free_text": "derives run seeds from VERIF_SEED, one fresh interpreter per batch/world with chosen PYTHONHASHSEED, shrinks and replays violations, writes evidence"},
  ],
  "checks": checks,
- "notes": "Technique family: deterministic simulation with fault injection. Fix commits in /repo: 7394bc5 (F2 TruncNormal sampler), 7b3b763 (F1 shared cli goals), f63cc8c (F5 exact_func_moments class flag), d37bec9 (F6 alias/unique name collision), c39653f (F7 AcyclicSolver validity offsets), f6eceea (F8 CyclicSolver zero roots), 240328d (F4 numeric complex roots), 195d71d (F10 typer and repeated initial assignments), f9d8be5 (F11 simulated tail probabilities at equality), 4602b08 (F12 sensitivity goal order), 61cb2d2 (F3 types after guard exit), ca9fcee (F14 exponent lattice of rational bases), 0f5c335 (F15 conditional functional assignments). Open known findings: F13 (C05, variables without initial value), F9 (C20). See DESIGN.md and known_findings.json.",
+ "notes": "Technique family: deterministic simulation with fault injection. Fix commits in /repo: 7394bc5 (F2 TruncNormal sampler), 7b3b763 (F1 shared cli goals), f63cc8c (F5 exact_func_moments class flag), d37bec9 (F6 alias/unique name collision), c39653f (F7 AcyclicSolver validity offsets), f6eceea (F8 CyclicSolver zero roots), 240328d (F4 numeric complex roots), 195d71d (F10 typer and repeated initial assignments), f9d8be5 (F11 simulated tail probabilities at equality), 4602b08 (F12 sensitivity goal order), 61cb2d2 (F3 types after guard exit), ca9fcee (F14 exponent lattice of rational bases), 0f5c335 (F15 conditional functional assignments), 11b186a (F16 implicit last probability of a choice), 9e9ff45 (F17 loop constants initialised twice). Open known findings: F13 (C05, variables without initial value), F9 (C20). See DESIGN.md and known_findings.json.",
  "not_applicable": [{"property_id": k, "reason": v} for k, v in sorted(na.items())],
 }
 json.dump(m, open(os.path.join(V, "MANIFEST.json"), "w"), indent=1)
